@@ -564,6 +564,7 @@ func kinds(name string) []Gen {
 type family struct {
 	name       string
 	minN, maxN int
+	maxTomb    int // -1: no limit; else only lists with at most that many tombstoned generations
 }
 
 // singles: every single-generation store with 1..3 files, each file small/big × first-block count 500/1000/10000.
@@ -597,15 +598,19 @@ func singles() []Store {
 
 func families(thorough bool) []family {
 	if thorough {
-		return []family{{"K48", 2, 3}, {"K16", 4, 4}, {"K8", 5, 6}}
+		return []family{{"K48", 2, 3, -1}, {"K16", 4, 4, -1}, {"K8", 5, 5, -1}, {"K8", 6, 6, 2}}
 	}
-	return []family{{"K48", 2, 2}, {"K16", 3, 3}, {"K8", 4, 5}}
+	return []family{{"K48", 2, 2, -1}, {"K16", 3, 3, -1}, {"K8", 4, 4, -1}, {"K8", 5, 5, 1}}
 }
 
 func familyText(thorough bool) string {
 	var p []string
 	for _, f := range families(thorough) {
-		p = append(p, fmt.Sprintf("%s^n for n=%d..%d", f.name, f.minN, f.maxN))
+		lim := ""
+		if f.maxTomb >= 0 {
+			lim = fmt.Sprintf(" with ≤%d tombstoned generation(s)", f.maxTomb)
+		}
+		p = append(p, fmt.Sprintf("%s^n for n=%d..%d%s", f.name, f.minN, f.maxN, lim))
 	}
 	return strings.Join(p, ", ")
 }
@@ -623,10 +628,14 @@ func forEachStore(thorough bool, f func(s Store) bool) {
 			od := make([]int, n)
 			for {
 				s := make(Store, n)
+				tombs := 0
 				for i := range od {
 					s[i] = ks[od[i]]
+					if s[i].Tomb {
+						tombs++
+					}
 				}
-				if !f(s) {
+				if (fam.maxTomb < 0 || tombs <= fam.maxTomb) && !f(s) {
 					return
 				}
 				i := n - 1
@@ -724,6 +733,7 @@ func schedHarness(sc SchedCase, out *schedResult) *vrt.Harness {
 					busy[ti] = true
 					p.Release([]tsm1.CompactionGroup{g})
 					busy[ti] = false
+					epoch++
 				}
 				for _, o := range pr.Ops {
 					switch o.K {
@@ -857,10 +867,14 @@ func forEachSchedStore(thorough bool, f func(s Store) bool) {
 		od := make([]int, n)
 		for {
 			s := make(Store, n)
+			tombs := 0
 			for i := range od {
 				s[i] = ks[od[i]]
+				if s[i].Tomb {
+					tombs++
+				}
 			}
-			if !f(s) {
+			if (n < 4 || tombs <= 1) && !f(s) {
 				return
 			}
 			i := n - 1
@@ -1302,7 +1316,7 @@ func budgetS(thorough bool) int {
 func TestCheck(t *testing.T) {
 	vlib.Main(t, &vlib.Check{
 		ID: "C05", Level: "model_checking",
-		Rule: "PART 1 (inputs × call orders): fake file stores = every single generation with 1–3 files (file size 64MB|>2GB × first-block count 500|1000|10000, level 1–4, tombstone y/n) plus every list of generations over per-generation kinds K8 = level 1–4 × tombstone y/n (one small file), K16 = K8 + level 1–4 × {one >2GB file of full blocks, two small files}, K48 = level 1–4 × tombstone × {1 small, 2 small, 1 >2GB full-block, 1 >2GB 999-point-block, 2×1.5GB, 1 file of exactly 2GB}; quick: K48^2, K16^3, K8^4..5; thorough: K48^2..3, K16^4, K8^5..6. For each store the state space of the real DefaultPlanner (set of held groups, forceFull pending) is explored by BFS to closure (no depth bound) under PlanLevel(1..4), Plan(lastWrite hot|cold), PlanOptimize(hot|cold), ForceFull and Release(g) of each single held group; every in-use set is obtained by really acquiring earlier plans. Oracle per plan call (statement transcribed): groups consist of whole generations of the store, are disjoint from each other and from every held group, each is an interval of the live generation order, files ascending. PART 2 (schedules): stores K8^1..3 (thorough ..4) × scenarios {two plan→release threads over all unordered pairs of live plan ops incl. ForceFull;Plan, plan thread || releaser of a group acquired before, the engine's planning round PlanLevel 1,2,3,Plan,PlanOptimize against itself / ForceFull / a releaser}; every schedule with ≤B preemptions at the Lock/RLock operations of DefaultPlanner.mu (quick: B=2 for stores of ≤2 generations, 1 for 3; thorough: B=2 for ≤3 generations, 1 for 4); same oracle against all groups held when a call returns. PART 3: end-to-end witnesses on a real tsm1.Engine for generation level lists [4,3,3,4] and [4,2,2,4]. states = distinct (store, planner state) pairs + schedule decision nodes; transitions = planner calls + scheduling steps; traces = BFS paths replayed on the implementation + executed schedules; non-trivial = transitions returning ≥1 group (part 1), executions with ≥1 preemption (part 2)",
+		Rule: "PART 1 (inputs × call orders): fake file stores = every single generation with 1–3 files (file size 64MB|>2GB × first-block count 500|1000|10000, level 1–4, tombstone y/n) plus every list of generations over per-generation kinds K8 = level 1–4 × tombstone y/n (one small file), K16 = K8 + level 1–4 × {one >2GB file of full blocks, two small files}, K48 = level 1–4 × tombstone × {1 small, 2 small, 1 >2GB full-block, 1 >2GB 999-point-block, 2×1.5GB, 1 file of exactly 2GB}; quick: K48^2, K16^3, K8^4, K8^5 restricted to ≤1 tombstoned generation; thorough: K48^2..3, K16^4, K8^5, K8^6 restricted to ≤2 tombstoned generations. For each store the state space of the real DefaultPlanner (set of held groups, forceFull pending) is explored by BFS to closure (no depth bound) under PlanLevel(1..4), Plan(lastWrite hot|cold), PlanOptimize(hot|cold), ForceFull and Release(g) of each single held group; every in-use set is obtained by really acquiring earlier plans. Oracle per plan call (statement transcribed): groups consist of whole generations of the store, are disjoint from each other and from every held group, each is an interval of the live generation order, files ascending. PART 2 (schedules): stores K8^1..3 (thorough: + K8^4 with ≤1 tombstoned generation) × scenarios {two plan→release threads over all unordered pairs of live plan ops incl. ForceFull;Plan, plan thread || releaser of a group acquired before, the engine's planning round PlanLevel 1,2,3,Plan,PlanOptimize against itself / ForceFull / a releaser}; every schedule with ≤B preemptions at the Lock/RLock operations of DefaultPlanner.mu (quick: B=2 for stores of ≤2 generations, 1 for 3; thorough: B=2 for ≤3 generations, 1 for 4); same oracle against all groups held when a call returns. PART 3: end-to-end witnesses on a real tsm1.Engine for generation level lists [4,3,3,4] and [4,2,2,4]. states = distinct (store, planner state) pairs + schedule decision nodes; transitions = planner calls + scheduling steps; traces = BFS paths replayed on the implementation + executed schedules; non-trivial = transitions returning ≥1 group (part 1), executions with ≥1 preemption (part 2)",
 		Assumptions: []string{
 			"the fake file store reports LastModified later than any lastPlanCheck: the 'nothing changed' shortcut of Plan only returns nil without side effects, so its behaviours are a subgraph of the explored ones",
 			"generation ids are consecutive and the store does not change during a planning round (the engine passes one FindGenerations result to all five plan calls)",
@@ -1313,7 +1327,7 @@ func TestCheck(t *testing.T) {
 		Run: func(c *vlib.Ctx) {
 			var idx, widx int64
 			budget := time.Duration(budgetS(c.Thorough())) * time.Second
-			part1Deadline := time.Now().Add(budget / 2) // part 1 may use half of the budget, the schedules get the rest
+			part1Deadline := time.Now().Add(budget * 7 / 10) // part 1 may use 70% of the budget, the schedules get the rest
 			maxDepth, nstores := 0, 0
 			var evals, nontriv int64
 			var ocount [10][3][2]int64
